@@ -42,6 +42,6 @@ PY
 export -f one
 export PAR
 rmdir /tmp/seedmx.lock.* 2>/dev/null
-ls -d ${MUTANTS:-seeded/C*-[a-z]} | xargs -P "$PAR" -I{} bash -c 'one {}' > "$OUT.tmp"
+ls -d ${MUTANTS:-seeded/C*-[a-z]*} | xargs -P "$PAR" -I{} bash -c 'one {}' > "$OUT.tmp"
 sort "$OUT.tmp" > "$OUT"; rm -f "$OUT.tmp"
 echo "matrix written to $OUT: $(wc -l < "$OUT") rows"
